@@ -15,7 +15,7 @@
      5 the returned chain is longer than the shortest possible one
      6 single-step choice: another succeeding single offer has a smaller MRO distance, or the
        same distance and a strictly more specific from-protocol
-     7 Supports / AdaptsTo / Instance storage rule broken (trait value vs shadow `name_`)
+     7 Supports / AdaptsTo / Instance: what is stored is not {the original, the result of adapt()} (trait value and shadow `name_`)
      8 outcome of the wrong shape for the entry point (e.g. default returned by adapt(obj, P)) *)
 From Coq Require Import List Arith Bool PeanoNat ZArith.
 From TV Require Import Common.Harness C17.Model.
@@ -77,12 +77,13 @@ Section Law.
     | TraitInstance (S (S _)), OStored VDefault None => DNo     (* mode 2 ("otherwise" in the C code) *)
     | TraitInstance (S (S _)), OStored v None => of_value v
     | TraitInstance _, OStored _ (Some _) => DBad 7%Z
-    | TraitSupports, OStored v (Some VSelf) => of_value v      (* value adapted, shadow original *)
-    | TraitSupports, OStored _ _ => DBad 7%Z
-    | TraitSupports, OTraitError => DNo
-    | TraitAdaptsTo, OStored VSelf (Some v) => of_value v       (* value original, shadow adapted *)
-    | TraitAdaptsTo, OStored _ _ => DBad 7%Z
-    | TraitAdaptsTo, OTraitError => DNo
+    (* Supports keeps the adapted value and shadows the original, AdaptsTo the other way round; the statement
+       only says that both apply adapt() to the assigned value, so the law accepts either arrangement of
+       {original, adapt() result} (the exact arrangement is compared model-vs-implementation in Corr.v) *)
+    | (TraitSupports | TraitAdaptsTo), OStored v (Some VSelf) => of_value v
+    | (TraitSupports | TraitAdaptsTo), OStored VSelf (Some v) => of_value v
+    | (TraitSupports | TraitAdaptsTo), OStored _ _ => DBad 7%Z
+    | (TraitSupports | TraitAdaptsTo), OTraitError => DNo
     | _, _ => DBad 8%Z
     end.
 
